@@ -32,8 +32,8 @@ theorem precancelled_then_retry :
 
 /-- C11, a fetch fails part-way (entry 2 unavailable), then the same heads are requested again -/
 theorem fetchfail_then_retry :
-    (finish [.load 1 [3], .acquire 0, .fetchOk 0, .acquire 0, .fetchFail 0, .load 2 [3]]).log = [3, 2, 1] ∧
-    settled (finish [.load 1 [3], .acquire 0, .fetchOk 0, .acquire 0, .fetchFail 0, .load 2 [3]]) = true := by
+    (finish [.load 1 [3], .acquire 0, .fetched 0, .finish 0, .acquire 0, .fetchFail 0, .load 2 [3]]).log = [3, 2, 1] ∧
+    settled (finish [.load 1 [3], .acquire 0, .fetched 0, .finish 0, .acquire 0, .fetchFail 0, .load 2 [3]]) = true := by
   decide
 
 /-- C11, cancelled in the middle of a fetch -/
@@ -44,36 +44,63 @@ theorem cancelled_midfetch_then_retry :
 /-- C11, cancelled while waiting for a fetch slot (one slot, held by another request) -/
 theorem cancelled_waiting_then_retry :
     (drain net0 40 (run net0 { sem := 1 }
-      [.load 1 [9], .acquire 0, .load 2 [3], .cancel 2, .acquire 1, .fetchOk 0, .load 3 [3]])).log = [3, 2, 1] := by
+      [.load 1 [9], .acquire 0, .load 2 [3], .cancel 2, .acquire 1, .fetched 0, .finish 0,
+       .load 3 [3]])).log = [3, 2, 1] := by
   decide
 
 /-- C11, cancelled between fetch and join (entry 3 fetched and buffered, its link not yet); the
 worker spawned for the link has noticed the cancellation before the next request -/
 theorem cancelled_before_join_then_retry :
-    (finish [.load 1 [3], .acquire 0, .fetchOk 0, .cancel 1, .acquire 0, .load 2 [3]]).log = [3, 2, 1] := by
+    (finish [.load 1 [3], .acquire 0, .fetched 0, .finish 0, .cancel 1, .acquire 0, .load 2 [3]]).log = [3, 2, 1] := by
   decide
+
+/-- C11, cancelled between `processItems` and `processEntryDone` (entry 3 buffered, its link queued,
+its task still `fetching`): nothing looks at the context there, the entry is marked done -/
+theorem cancelled_before_done_then_retry :
+    (finish [.load 1 [3], .acquire 0, .fetched 0, .cancel 1, .finish 0, .acquire 0, .load 2 [3]]).log
+      = [3, 2, 1] := by decide
 
 /-- C10: a rejected head and a foreign head first in the batch; the valid ones all arrive -/
 theorem rejected_first :
     (finish [.load 1 [9, 8, 3]]).log = [3, 2, 1] ∧ settled (finish [.load 1 [9, 8, 3]]) = true := by decide
 
-/-- C10: same with the rejected entry's fetch completing between the valid ones -/
+/-- C10: same with the rejected entry's fetch completing between the valid ones, the workers
+interleaved as the real ones can be: 3 and 9 are fetched before either is marked done, 9 is done
+first, the worker spawned for 2 gets its slot before its parent 3 has run `processEntryDone` -/
 theorem rejected_between :
-    (finish [.load 1 [3, 9], .acquire 0, .acquire 1, .fetchOk 0, .acquire 1, .fetchOk 0, .fetchOk 0]).log
+    (finish [.load 1 [3, 9], .acquire 0, .acquire 1, .fetched 0, .fetched 1, .finish 1, .acquire 1,
+      .finish 0, .fetched 0, .finish 0, .acquire 0]).log = [3, 2, 1] := by decide
+
+/-- the refinement at work: the child (entry 2) is spawned, gets a slot, is fetched and is marked
+done while its parent (entry 3) still sits between `processItems` and `processEntryDone` — task
+`fetching`, slot held, log already in the buffer; nothing is flushed before the parent is done, and
+everything arrives -/
+theorem child_done_before_parent :
+    let s := run net0 s0 [.load 1 [3], .acquire 0, .fetched 0, .acquire 1, .fetched 1, .finish 1]
+    task s 3 = some .fetching ∧ task s 2 = some .fetched ∧ s.buffer = [3, 2] ∧ s.pending = [] ∧
+    s.sem = 1 ∧ s.inProgress = 1 ∧
+    (finish [.load 1 [3], .acquire 0, .fetched 0, .acquire 1, .fetched 1, .finish 1, .finish 0]).log
       = [3, 2, 1] := by decide
+
+/-- a worker keeps its slot until it has run `processEntryDone`: with one slot the child cannot
+start before its parent is done -/
+theorem slot_held_while_finishing :
+    let s := run net0 { sem := 1 } [.load 1 [3], .acquire 0, .fetched 0]
+    s.sem = 0 ∧ (step net0 s (.acquire 1)).workers = s.workers ∧ (step net0 s (.acquire 1)).sem = 0 ∧
+    (drain net0 40 (step net0 s (.acquire 1))).log = [3, 2, 1] := by decide
 
 /-- **Finding.** One later request is not always enough: if the worker of a cancelled request has
 not yet noticed the cancellation when the next `Load` arrives, `Load` skips its hash (it still has a
 task); the old worker then gives up, the hash lands in `failed` and waits for yet another `Load`.
 Here the new request for the same head 3 reaches quiescence with 2 and 1 missing … -/
 theorem one_load_not_enough :
-    (finish [.load 1 [3], .acquire 0, .fetchOk 0, .cancel 1, .load 2 [3]]).log = [3] ∧
-    quiescent (finish [.load 1 [3], .acquire 0, .fetchOk 0, .cancel 1, .load 2 [3]]) = true ∧
-    (finish [.load 1 [3], .acquire 0, .fetchOk 0, .cancel 1, .load 2 [3]]).failed = [2] := by decide
+    (finish [.load 1 [3], .acquire 0, .fetched 0, .finish 0, .cancel 1, .load 2 [3]]).log = [3] ∧
+    quiescent (finish [.load 1 [3], .acquire 0, .fetched 0, .finish 0, .cancel 1, .load 2 [3]]) = true ∧
+    (finish [.load 1 [3], .acquire 0, .fetched 0, .finish 0, .cancel 1, .load 2 [3]]).failed = [2] := by decide
 
 /-- … and any further request (even with no heads) completes it: at most two requests. -/
 theorem second_load_enough :
-    (drain net0 40 (step net0 (finish [.load 1 [3], .acquire 0, .fetchOk 0, .cancel 1, .load 2 [3]])
+    (drain net0 40 (step net0 (finish [.load 1 [3], .acquire 0, .fetched 0, .finish 0, .cancel 1, .load 2 [3]])
       (.load 3 []))).log = [3, 2, 1] := by decide
 
 /-- the same with a pre-cancelled request whose worker is still waiting -/
@@ -83,7 +110,7 @@ theorem one_load_not_enough' :
 
 /-- a hash can be in `failed` and in `tasks` at the same time (harmless: `Load` skips it) -/
 theorem failed_and_task :
-    let s := run net0 s0 [.load 2 [2], .acquire 0, .cancel 1, .load 1 [1], .acquire 1, .fetchOk 0]
+    let s := run net0 s0 [.load 2 [2], .acquire 0, .cancel 1, .load 1 [1], .acquire 1, .fetched 0, .finish 0]
     s.failed = [1] ∧ task s 1 = some .added := by decide
 
 /-! ## the replicator before the repairs (`stepPinned`), kept as documentation of F6/F7
@@ -114,16 +141,19 @@ def stepPinned (net : Nat → Info) (s : St) : Act → St
           let s := { setTask s h .fetching with queue := q, sem := s.sem - 1, inProgress := s.inProgress + 1 }
           { s with workers := s.workers.set i ⟨ctx, h, .fetching⟩ }
     | _ => s
-  | .fetchOk i =>
+  | .fetched i =>
     match s.workers[i]? with
     | some ⟨ctx, h, .fetching⟩ =>
       if s.cancelled.contains ctx then s else
-      let s := { s with workers := removeAt s.workers i }
-      if (net h).foreign then done s h
+      let s := { s with workers := s.workers.set i ⟨ctx, h, .finishing⟩ }
+      if (net h).foreign then s
       else
         let s := { s with buffer := s.buffer ++ [h] }
-        let s := (net h).links.foldl (enqueue ctx) s
-        done s h
+        (net h).links.foldl (enqueue ctx) s
+    | _ => s
+  | .finish i =>
+    match s.workers[i]? with
+    | some ⟨_, h, .finishing⟩ => done { s with workers := removeAt s.workers i } h
     | _ => s
   | .fetchFail i =>
     match s.workers[i]? with
